@@ -147,13 +147,15 @@ Definition spec_rt_ok (c : list entry) (res : val) : bool :=
   | _ => false
   end.
 
-(* the known class "symdir-chain" (known_findings/C25.json): an entry lies beneath a symlink S1 whose
-   resolved target is, or lies beneath, another symlink S2 of the set *)
+(* the known class "symdir-chain" (known_findings/C25.json): resolving an entry takes more than one
+   symlink hop -- it lies beneath a symlink S1, and S1 lies beneath another symlink S2 of the set or
+   S1's resolved target is, or lies beneath, S2 *)
 Definition chain_classb (c : list entry) : bool :=
   existsb (fun s1 =>
     is_sym s1 && existsb (fun e => beneathb (loc s1) (loc e)) c
     && existsb (fun s2 => is_sym s2 && negb (str_eqb (loc s1) (loc s2))
-                          && (str_eqb (resolved_target s1) (loc s2) || beneathb (loc s2) (resolved_target s1))) c) c.
+                          && (str_eqb (resolved_target s1) (loc s2) || beneathb (loc s2) (resolved_target s1)
+                              || beneathb (loc s2) (loc s1))) c) c.
 
 (* the same three conditions on a set of entries as read from ANY archive (archive_to_fsobj's output) *)
 Definition plain_locs (d : list entry) : Prop := forall e, In e d -> plain_loc (loc e).
